@@ -1,7 +1,7 @@
 (* C20 — non-vacuity: concrete, non-trivial lineages meet the hypotheses of
    each theorem of Property.v and show the conclusions are not empty.
    (The unchanged code satisfies C20, so there is no legacy refutation.) *)
-From Coq Require Import ZArith List Bool.
+From Coq Require Import ZArith List Bool Lia.
 From Verif Require Import C20.Model C20.Proofs.
 Import ListNotations.
 Open Scope Z_scope.
@@ -241,3 +241,42 @@ Example ex_random_rate :
     g_replicate (init_genome_r false rand0 0 genesR) [] true /\
   map m_gene (mlog (g_replicate_full (init_genome_r true None 32 genesR) [] true [40; 10; 63; 33; 31; 0])) = [1].
 Proof. vm_compute. split; reflexivity. Qed.
+
+(* c20_name_spellings_distinct / c20_other_names_untouched /
+   c20_other_spelling_is_another_gene: "g1" and "g1 " (trailing space) are valid
+   names with different codes; on a genome with allow_mutations ON holding
+   "g1", calls under the name "g1 " -- an add (applied: a new gene appears), a
+   re-add that overwrites it, a mutation, an expression change -- and a
+   replication do a lot, and leave the entry of "g1" alone. *)
+Definition n_g1 : list Z := [103; 49].
+Definition n_g1sp : list Z := [103; 49; 32].
+Definition S0 := init_genome true None [mkGene (name_code n_g1) 5 Conditional 1 true High].
+Definition hist_sp : list op :=
+  [ (0%nat, OAdd (mkGene (name_code n_g1sp) 6 Structural 0 false Normal));
+    (0%nat, OAdd (mkGene (name_code n_g1sp) 7 Dormant 0 false Low));
+    (0%nat, OMutate (name_code n_g1sp) 8); (0%nat, OSilence (name_code n_g1sp));
+    (0%nat, OReplicate [(name_code n_g1sp, VInt 9)] true []); (1%nat, OMutate (name_code n_g1) 3) ].
+
+Example ex_spellings :
+  valid_name n_g1 /\ valid_name n_g1sp /\ n_g1 <> n_g1sp /\ name_code n_g1 <> name_code n_g1sp /\
+  (forall o n, In o (ops_for 0 hist_sp) -> addresses o n = true -> n = name_code n_g1sp) /\
+  (forall o, In o (ops_for 0 hist_sp) -> addresses o (name_code n_g1) = false) /\
+  exists G' C, nth_error (run [S0] hist_sp) 0 = Some G' /\ nth_error (run [S0] hist_sp) 1 = Some C /\
+    lookup (tbl G') (name_code n_g1) = lookup (tbl S0) (name_code n_g1) /\
+    stored G' (name_code n_g1) = Some (VInt 5) /\
+    stored S0 (name_code n_g1sp) = None /\ stored G' (name_code n_g1sp) = Some (VInt 8) /\
+    length (mlog G') = 1%nat /\ ghash G' <> ghash S0 /\
+    stored C (name_code n_g1) = Some (VInt 3) /\ stored C (name_code n_g1sp) = Some (VInt 9).
+Proof.
+  assert (V1 : valid_name n_g1) by (repeat constructor; unfold name_base; lia).
+  assert (V2 : valid_name n_g1sp) by (repeat constructor; unfold name_base; lia).
+  split; [exact V1|]. split; [exact V2|]. split; [discriminate|]. split; [vm_compute; discriminate|].
+  split.
+  - intros o n Hin A. vm_compute in Hin.
+    repeat (destruct Hin as [<-|Hin]; [cbn [addresses g_name] in A; try discriminate; apply Z.eqb_eq in A; now rewrite <- A|]).
+    destruct Hin.
+  - split.
+    + intros o Hin. vm_compute in Hin.
+      repeat (destruct Hin as [<-|Hin]; [vm_compute; reflexivity|]). destruct Hin.
+    + vm_compute. do 2 eexists. repeat split; discriminate.
+Qed.
